@@ -16,7 +16,7 @@ LEVEL = "fault_enumeration"
 RULE = (
     "case = history of 5..60 steps on the lazily-committing SQLite store whose clock (the module-level datetime it reads) is replaced by a controllable one: "
     "each step advances the clock by a value from {0, 0.5, 3, 9, 11, 12, 60, 3600, 86400 s} (never inside (9,11), so 'about ten' is not tested at its edge) and "
-    "performs an event write (insert, small bulk insert, replace, replace_last, delete) or occasionally a read. Oracle with the C06 observers: a flush moment is any "
+    "performs an event write (insert, bulk insert of 0..5 or occasionally 49..230 events with and without ids, replace, replace_last, delete) or occasionally a read. Oracle with the C06 observers: a flush moment is any "
     "COMMIT statement or any operation return at which the second connection's dump equals the writer's; for each event write at clock time t with f the latest "
     "earlier flush (store creation counts): if t - f >= 11 s then after the write returns the second connection must see the writer's state (the write itself is "
     "durable). Nothing is demanded for t - f <= 9 s. Thorough adds real time: child processes write, sleep 11..12 s, write again, and the parent inspects the file "
@@ -44,7 +44,7 @@ def strategy(draw, tier="quick"):
         st.fixed_dictionaries({"op": st.just("replace"), "b": b, "k": st.integers(0, 99), "e": ev}),
         st.fixed_dictionaries({"op": st.just("replace_last"), "b": b, "e": ev}),
         st.fixed_dictionaries({"op": st.just("delete"), "b": b, "k": st.integers(0, 99)}),
-        st.fixed_dictionaries({"op": st.just("bulk"), "b": b, "n": st.integers(0, 5), "seed": st.integers(0, 999), "upd": st.integers(0, 2)}),
+        st.fixed_dictionaries({"op": st.just("bulk"), "b": b, "n": st.one_of(st.integers(0, 5), st.integers(0, 5), st.sampled_from([49, 51, 100, 101, 120, 150, 230])), "seed": st.integers(0, 999), "upd": st.integers(0, 2)}),
         st.fixed_dictionaries({"op": st.just("read"), "b": b, "kind": st.sampled_from(["get", "count"])}),
     )
     profile = draw(st.sampled_from([ADV, [0, 0, 0, 0.5, 12], [3, 9, 11, 12], [0, 60, 3600], ADV]))
